@@ -69,11 +69,15 @@ Spec == Init /\ [][Next]_vars
 -----------------------------------------------------------------------------
 (* what the file declares *)
 IsBlock(c) == c.k = "block"
-RECURSIVE DictOf(_, _)
-DictOf(cs, acc) == IF cs = <<>> THEN acc ELSE DictOf(Tail(cs), DictPut(acc, Head(cs)))
+\* dictionary semantics without recursion (shipped files declare hundreds of blocks): position = first occurrence of the
+\* name, value = last chunk with that name
+DictSeq(cs) ==
+  LET firsts == SelectSeq([i \in DOMAIN cs |-> i], LAMBDA i : \A j \in 1..(i - 1) : cs[j].name # cs[i].name)
+  IN [k \in DOMAIN firsts |->
+        cs[CHOOSE i \in DOMAIN cs : cs[i].name = cs[firsts[k]].name /\ \A j \in (i + 1)..Len(cs) : cs[j].name # cs[i].name]]
 DeclaredLinks(f)  == SelectSeq(f, LAMBDA c : c.k = "link")
-DeclaredBlocks(f) == DictOf(SelectSeq(f, IsBlock), <<>>)
-DeclaredMods(f)   == DictOf(SelectSeq(f, LAMBDA c : c.k = "mod"), <<>>)
+DeclaredBlocks(f) == DictSeq(SelectSeq(f, IsBlock))
+DeclaredMods(f)   == DictSeq(SelectSeq(f, LAMBDA c : c.k = "mod"))
 Malformed(f) == \E i \in DOMAIN f : f[i].k = "fault" \/ (f[i].k = "variables" /\ \E j \in 1..(i - 1) : IsContext(f[j]))
 
 ExactlyOnceInOrder ==
